@@ -93,6 +93,13 @@ def prepare(ctx, case, ifaces, known):
         return None, None, None, "generated package rejected by the toolchain: " + (pre.err + pre.out)[-500:]
     ok, failures, r = mockgen.run_generation(ctx, root, info, case, ifaces)
     by_name = {i["name"]: i for i in ifaces}
+    crashed = [(n, ri) for n, ri in sorted(failures.items()) if ri.panicked or (ri.exit is not None and ri.exit < 0)]
+    if crashed:
+        # the tool ended in a Go panic / fatal error or was killed for spinning while generating the mocks under test: nothing this check is about can hold for
+        # that interface (a plain refusal, exit 1 with a diagnostic, stays C01's business)
+        n, ri = crashed[0]
+        return None, None, None, {"crash": "mockery %s while generating the mock of %s (feature %s)" % ("crashed" if ri.panicked else "was killed (exit %s)" % ri.exit, n, by_name[n]["feature"]),
+                                  "brief": ri.brief(1200), "iface": gosrc.render_iface(by_name[n])}
     comp = mockgen.compile_all(root, info)
     broken = set()
     if comp.exit != 0:
